@@ -84,12 +84,18 @@ Definition arg_xpub (a : list string) : parg (xpub * option (sxpub E)) :=
   end.
 
 (* --- path ops -------------------------------------------------------- *)
+(* strings outside the standard notation: an independent reader refuses them; the library's documented leniency
+   (the explicit language of C08_path_grammar minus the standard notation: "m0", "m/+1", "m//1", "m/1Hh''", ...) is
+   tolerated (compared with the model only), everything else must be refused *)
+Definition nonstd_spec (p : list ascii) : string :=
+  match parse_path p with Ok _ => "-" | _ => "ERR" end.
+
 Definition spec_path_priv (x : option sxprv) (p : list ascii) : string :=
   match x with
   | None => "ERR"
   | Some x =>
       match std_path p with
-      | None => "-"
+      | None => nonstd_spec p
       | Some [] => "ERR~" +++ show_sxprv x
       | Some idx => show_s show_sxprv (descend_priv E x idx)
       end
@@ -99,7 +105,7 @@ Definition spec_path_pub (x : option (sxpub E)) (p : list ascii) : string :=
   | None => "ERR"
   | Some x =>
       match std_path p with
-      | None => "-"
+      | None => nonstd_spec p
       | Some [] => "ERR~" +++ show_sxpub x
       | Some idx => show_s show_sxpub (descend_pub E x idx)
       end
@@ -130,6 +136,37 @@ Definition run (op : string) (args : list string) : string :=
                   | Some seed, Some pb =>
                       out3 (show_o show_xpub (do x <- xpub_from_seed E seed; xpub_derive_path E x (text_of pb)))
                            (spec_path_pub (option_map (neuter E) (master seed)) (text_of pb)) "-"
+                  | _, _ => "BADARG" end
+      | _ => "BADARG" end
+  | "xprv.from_random" | "xpub.from_random" =>
+      (* behavioural: depth;index;fingerprint of a fresh key; 1 iff its string reads back to the same fields;
+         1 iff two calls give different keys *)
+      match args with [] => out3 "OK:0;0;00000000;1;1" "OK:0;0;00000000;1;1" "-" | _ => "BADARG" end
+  | "xpub.from_seed" =>
+      match args with
+      | [s] => match expand s with
+               | Some seed => out3 (show_o show_xpub (xpub_from_seed E seed))
+                                   (show_s show_sxpub (option_map (neuter E) (master seed))) "-"
+               | None => "BADARG" end
+      | _ => "BADARG" end
+  | "xprv.string_derive" =>
+      match args with
+      | [s; i] => match expand s, N_of_dec i with
+                  | Some sb, Some ix =>
+                      if (4294967296 <=? ix)%N then "BADARG" else
+                      let str := string_of_bytes sb in
+                      out3 (show_o show_xprv (do x <- xprv_from_string E str; xprv_derive E x ix))
+                           (show_s show_sxprv (match parse_priv str with Some x => child_priv E x ix | None => None end)) "-"
+                  | _, _ => "BADARG" end
+      | _ => "BADARG" end
+  | "xpub.string_derive" =>
+      match args with
+      | [s; i] => match expand s, N_of_dec i with
+                  | Some sb, Some ix =>
+                      if (4294967296 <=? ix)%N then "BADARG" else
+                      let str := string_of_bytes sb in
+                      out3 (show_o show_xpub (do x <- xpub_from_string E str; xpub_derive E x ix))
+                           (show_s show_sxpub (match parse_pub E str with Some x => child_pub E x ix | None => None end)) "-"
                   | _, _ => "BADARG" end
       | _ => "BADARG" end
   | "xprv.from_string" =>
@@ -176,7 +213,7 @@ Definition run (op : string) (args : list string) : string :=
       | PBad => "BADARG" | PInvalid => "ERR|-|-"
       | PGood (x, sx, std) => out3 (show_xpub (xpub_from_xprv x)) (if std then show_sxpub (neuter E sx) else "-") "-"
       end
-  | "xprv.derive" | "xprv.neuter_derive" | "xprv.derive_path" =>
+  | "xprv.derive" | "xprv.neuter_derive" | "xpub.from_xprv_derive" | "xprv.derive_path" =>
       match take_last args with
       | Some (pa, last) =>
           match arg_xprv pa with
@@ -196,6 +233,9 @@ Definition run (op : string) (args : list string) : string :=
                            | "xprv.derive" =>
                                out3 (show_o show_xprv (xprv_derive E x i))
                                     (if std then show_s show_sxprv (child_priv E sx i) else "-") "-"
+                           | "xpub.from_xprv_derive" =>
+                               out3 (show_o show_xpub (xpub_derive E (xpub_from_xprv x) i))
+                                    (if std then show_s show_sxpub (child_pub E (neuter E sx) i) else "-") "-"
                            | _ =>
                                out3 (show_o show_xpub (omap xpub_from_xprv (xprv_derive E x i)))
                                     (if std then
